@@ -351,10 +351,12 @@ def run_c20(prop, tier, seed):
         # the real wrappers over real agents against the simulated node: server answers ok / an error status / nothing
         client_w = ["GetVBucketSeqNos", "GetFailOverLogs", "OpenStream", "CloseStream", "GetCollectionIDs"]
         doc_w = ["Get", "CreateDocument", "UpdateDocument", "DeleteDocument", "UpsertXattrs", "GetXattrs", "CreatePath"]
+        # ... and the document operations the way the library itself calls them (its own contexts / deadlines): the Couchbase metadata backend
+        meta_w = ["MetaLoad", "MetaSave", "MetaClear"]
         nwire = 0
-        for wname in client_w + doc_w:
+        for wname in client_w + doc_w + meta_w:
             cases = [[{"a": "Submit", "ok": True}, {"a": "CbStart", "o": o}, {"a": "CbResolve"}, {"a": "CbSend"}, {"a": "Quiesce"}] for o in ("ok", "fail")]
-            if wname in doc_w or tier == "thorough":     # (a silent server costs the 60 s hard-coded in client.go)
+            if wname in doc_w + meta_w or tier == "thorough":     # (a silent server costs the 60 s hard-coded in client.go)
                 cases.append([{"a": "Submit", "ok": True}, {"a": "Deadline"}, {"a": "Quiesce"}])
             for o in cases:
                 allsch.append({"id": len(allsch) + 1, "cfg": {"NVB": 0, "wrapper": wname}, "steps": [{"l": l} for l in o], "driver": "wire",
